@@ -1,6 +1,7 @@
 import Rs1090.Driver.Common
 import Rs1090.Model.Decode.Message
 import Rs1090.Model.Decode.Timed
+import Rs1090.Model.JsonText
 namespace Rs1090.Driver.C07
 open Rs1090 Rs1090.Model Rs1090.Driver
 
@@ -20,13 +21,22 @@ def cfg? : String → Option Timed.Config
   | "1" => some (.set true)
   | _ => none
 
+/-- `Message.showDecoded`, with the cross-check of the two printers on every JSON value printed: the text of the total
+    function `Json.text` (the one the `one_line` theorems are about; keys and literals escaped as serde_json does) must be
+    the text of the runtime printer `Json.render` (the one compared with `serde_json::to_string`), else the answer is
+    `selftest-mismatch` — a disagreement for the correspondence check -/
+def showChecked (o : Outcome Message.Decoded) : String :=
+  match o with
+  | .ok (.json j) => if j.textAgrees then Message.showDecoded o else "selftest-mismatch"
+  | _ => Message.showDecoded o
+
 /-- same line protocol as C01: the canonical JSON (key order and multiplicity included) of the decoded message -/
 def handle : List String → Option String
-  | ["dec", h] => (parseHex h).map fun bs => Message.showDecoded (Message.tryFrom bs)
-  | ["dec"] => some (Message.showDecoded (Message.tryFrom []))
-  | ["decb", h] => (parseHex h).map fun bs => Message.showDecoded (Message.fromBytes bs)
+  | ["dec", h] => (parseHex h).map fun bs => showChecked (Message.tryFrom bs)
+  | ["dec"] => some (showChecked (Message.tryFrom []))
+  | ["decb", h] => (parseHex h).map fun bs => showChecked (Message.fromBytes bs)
   /- the timed record of one reception at t = 1.5 s with no metadata -/
-  | ["timed", h] => (parseHex h).map fun bs => Message.showDecoded (Timed.record (jrat 3 2) bs)
+  | ["timed", h] => (parseHex h).map fun bs => showChecked (Timed.record (jrat 3 2) bs)
   /- `timedc <u|0|1> <n|s> <k> <hex>`: the timed record under the serialisation configuration (never set /
      `serialize_config(false)` / `serialize_config(true)`), with `decode_time` = `None` / `Some(0.000125)`, `k`
      reception records, t = 1.5 s -/
@@ -38,7 +48,7 @@ def handle : List String → Option String
       | _ => none
     let k ← k.toNat?
     let bs ← parseHex h
-    pure (Message.showDecoded (Timed.recordCfg cfg (jrat 3 2) bs ((List.range k).map sensor) dt))
+    pure (showChecked (Timed.recordCfg cfg (jrat 3 2) bs ((List.range k).map sensor) dt))
   | _ => none
 
 end Rs1090.Driver.C07
